@@ -37,3 +37,5 @@ func corpusPages(ctx *Ctx, id string) []string {
 	}
 	return out
 }
+
+func sortStrings(s []string) { sort.Strings(s) }
